@@ -59,10 +59,19 @@ var (
 )
 
 type c47AccSpec struct {
-	key   common.Hash
-	slots uint64
-	seed  uint64
-	code  []byte
+	key     common.Hash
+	slots   map[uint64]uint64 // slot index -> value (stored as the package's makeStorageTrieWithSeed does)
+	code    []byte
+	balance uint64
+	nonce   uint64
+}
+
+func c47Slots(n, seed uint64) map[uint64]uint64 {
+	m := map[uint64]uint64{}
+	for i := uint64(1); i <= n; i++ {
+		m[i] = i + seed
+	}
+	return m
 }
 
 // The target: 5 accounts in 4 account ranges (accountConcurrency = 4); a 40-slot contract
@@ -71,12 +80,29 @@ type c47AccSpec struct {
 // a contract with storage but no code.
 func c47Specs() []c47AccSpec {
 	return []c47AccSpec{
-		{common.HexToHash("0x05a1000000000000000000000000000000000000000000000000000000000001"), 40, 1, c47CodeA},
-		{common.HexToHash("0x4a00000000000000000000000000000000000000000000000000000000000002"), 3, 2, c47CodeA},
-		{common.HexToHash("0x4b00000000000000000000000000000000000000000000000000000000000003"), 4, 5, c47CodeB},
-		{common.HexToHash("0x9c00000000000000000000000000000000000000000000000000000000000004"), 0, 0, nil},
-		{common.HexToHash("0xf300000000000000000000000000000000000000000000000000000000000005"), 5, 3, nil},
+		{common.HexToHash("0x05a1000000000000000000000000000000000000000000000000000000000001"), c47Slots(40, 1), c47CodeA, 1000, 0},
+		{common.HexToHash("0x4a00000000000000000000000000000000000000000000000000000000000002"), c47Slots(3, 2), c47CodeA, 1001, 1},
+		{common.HexToHash("0x4b00000000000000000000000000000000000000000000000000000000000003"), c47Slots(4, 5), c47CodeB, 1002, 2},
+		{common.HexToHash("0x9c00000000000000000000000000000000000000000000000000000000000004"), nil, nil, 1003, 3},
+		{common.HexToHash("0xf300000000000000000000000000000000000000000000000000000000000005"), c47Slots(5, 3), nil, 1004, 4},
 	}
+}
+
+// c47MakeStorage builds a storage trie like the package's makeStorageTrieWithSeed, from explicit slots.
+func c47MakeStorage(owner common.Hash, slots map[uint64]uint64, db *triedb.Database) (common.Hash, *trienode.NodeSet, []*kv) {
+	tr, _ := trie.New(trie.StorageTrieID(types.EmptyRootHash, owner, types.EmptyRootHash), db)
+	var entries []*kv
+	for idx, val := range slots {
+		slotValue := key32(val)
+		enc, _ := rlp.EncodeToBytes(common.TrimLeftZeroes(slotValue[:]))
+		key := crypto.Keccak256Hash(key32(idx))
+		elem := &kv{common.CopyBytes(key[:]), enc}
+		tr.MustUpdate(elem.k, elem.v)
+		entries = append(entries, elem)
+	}
+	sort.Slice(entries, func(i, j int) bool { return bytes.Compare(entries[i].k, entries[j].k) < 0 })
+	root, nodes := tr.Commit(false)
+	return root, nodes, entries
 }
 
 func c47ReadNodes(tr *trie.Trie) map[string]c47Node {
@@ -94,7 +120,9 @@ func c47ReadNodes(tr *trie.Trie) map[string]c47Node {
 	return out
 }
 
-func c47MakeState(scheme string) *c47State {
+func c47MakeState(scheme string) *c47State { return c47MakeStateOf(scheme, c47Specs()) }
+
+func c47MakeStateOf(scheme string, specs []c47AccSpec) *c47State {
 	var (
 		db      = triedb.NewDatabase(rawdb.NewMemoryDatabase(), newDbConfig(scheme))
 		accTrie = trie.NewEmpty(db)
@@ -103,10 +131,10 @@ func c47MakeState(scheme string) *c47State {
 		roots = map[common.Hash]common.Hash{}
 		nodes = trienode.NewMergedNodeSet()
 	)
-	for i, sp := range c47Specs() {
+	for _, sp := range specs {
 		stRoot := types.EmptyRootHash
-		if sp.slots > 0 {
-			r, stNodes, entries := makeStorageTrieWithSeed(sp.key, sp.slots, sp.seed, db)
+		if len(sp.slots) > 0 {
+			r, stNodes, entries := c47MakeStorage(sp.key, sp.slots, db)
 			nodes.Merge(stNodes)
 			stRoot = r
 			st.stElems[sp.key] = entries
@@ -118,7 +146,7 @@ func c47MakeState(scheme string) *c47State {
 			codeHash = h.Bytes()
 			st.codes[h] = sp.code
 		}
-		acc := types.StateAccount{Nonce: uint64(i), Balance: uint256.NewInt(uint64(1000 + i)), Root: stRoot, CodeHash: codeHash}
+		acc := types.StateAccount{Nonce: sp.nonce, Balance: uint256.NewInt(sp.balance), Root: stRoot, CodeHash: codeHash}
 		value, _ := rlp.EncodeToBytes(&acc)
 		st.slim[sp.key] = types.SlimAccountRLP(acc)
 		elem := &kv{common.CopyBytes(sp.key[:]), value}
@@ -183,6 +211,38 @@ type c47Run struct {
 	db      *c47DB
 	reserve atomic.Int64
 	peers   []*testPeer
+
+	// interruption (two-cycle family): requests matching withhold are never answered; the
+	// cycle is cancelled right after the cancelAfter-th delivered answer, or (fallback, so that
+	// a cycle that can make no further progress ends) after 4 withheld requests in a row.
+	withhold    func(kind string, first common.Hash) bool
+	cancelAfter int
+	deliveries  int
+	dropsInRow  int
+	stallCancel bool
+	term        func()
+}
+
+// withheld reports (and counts) a request the peer never answers. Called under run.mu.
+func (run *c47Run) withheld(kind string, first common.Hash) bool {
+	if run.withhold == nil || !run.withhold(kind, first) {
+		return false
+	}
+	run.dropsInRow++
+	if run.dropsInRow >= 4 && run.term != nil {
+		run.stallCancel = true
+		run.term()
+	}
+	return true
+}
+
+// delivered counts an answer handed to the syncer. Called under run.mu.
+func (run *c47Run) delivered() {
+	run.deliveries++
+	run.dropsInRow = 0
+	if run.cancelAfter > 0 && run.deliveries == run.cancelAfter && run.term != nil {
+		run.term()
+	}
 }
 
 func (run *c47Run) newPeer(id string, bad bool) *testPeer {
@@ -249,6 +309,9 @@ func (run *c47Run) account(t *testPeer, bad bool, id uint64, root, origin, limit
 	run.mu.Lock()
 	defer run.mu.Unlock()
 	defer run.done.Add(1)
+	if run.withheld(c47Account, origin) {
+		return
+	}
 	beh := run.behaviour(bad, c47Account)
 	if beh == "truncate" {
 		cap = 1
@@ -281,12 +344,16 @@ func (run *c47Run) account(t *testPeer, bad bool, id uint64, root, origin, limit
 	}
 	run.syncer.OnAccounts(t, id, keys, vals, proofs)
 	_ = invalid
+	run.delivered()
 }
 
 func (run *c47Run) storage(t *testPeer, bad bool, id uint64, root common.Hash, accounts []common.Hash, origin, limit []byte, max int) {
 	run.mu.Lock()
 	defer run.mu.Unlock()
 	defer run.done.Add(1)
+	if run.withheld(c47Storage, accounts[0]) {
+		return
+	}
 	beh := run.behaviour(bad, c47Storage)
 	max = 500 // the honest peer serves small storage responses, so the 40-slot contract is chunked
 	if beh == "truncate" {
@@ -320,12 +387,16 @@ func (run *c47Run) storage(t *testPeer, bad bool, id uint64, root common.Hash, a
 	}
 	run.syncer.OnStorage(t, id, hashes, slots, proofs)
 	_ = invalid
+	run.delivered()
 }
 
 func (run *c47Run) code(t *testPeer, bad bool, id uint64, hashes []common.Hash) {
 	run.mu.Lock()
 	defer run.mu.Unlock()
 	defer run.done.Add(1)
+	if run.withheld(c47Code, hashes[0]) {
+		return
+	}
 	beh := run.behaviour(bad, c47Code)
 	var codes [][]byte
 	for _, h := range hashes {
@@ -345,12 +416,16 @@ func (run *c47Run) code(t *testPeer, bad bool, id uint64, hashes []common.Hash) 
 	}
 	run.syncer.OnByteCodes(t, id, codes)
 	_ = invalid
+	run.delivered()
 }
 
 func (run *c47Run) heal(t *testPeer, bad bool, id uint64, paths []TrieNodePathSet) {
 	run.mu.Lock()
 	defer run.mu.Unlock()
 	defer run.done.Add(1)
+	if run.withheld(c47Heal, common.Hash{}) {
+		return
+	}
 	beh := run.behaviour(bad, c47Heal)
 	var nodes [][]byte
 	for _, pathset := range paths {
@@ -387,6 +462,7 @@ func (run *c47Run) heal(t *testPeer, bad bool, id uint64, paths []TrieNodePathSe
 	}
 	run.syncer.OnTrieNodes(t, id, nodes)
 	_ = invalid
+	run.delivered()
 }
 
 // ---- oracle ----------------------------------------------------------------
@@ -518,7 +594,15 @@ func c47CheckComplete(db ethdb.KeyValueStore, st *c47State) error {
 	if nCode != len(st.codes) {
 		return fmt.Errorf("%d code entries stored, target references %d", nCode, len(st.codes))
 	}
-	// trie: full iteration from the root through a fresh trie database over the synced key-value store
+	if err := c47CheckTries(db, st); err != nil {
+		return err
+	}
+	return c47CheckPathStore(db, st)
+}
+
+// c47CheckTries: the account trie and every storage trie iterate completely from the root
+// through a fresh trie database over the synced key-value store and equal the target leaf by leaf.
+func c47CheckTries(db ethdb.KeyValueStore, st *c47State) error {
 	tdb := triedb.NewDatabase(rawdb.NewDatabase(db), newDbConfig(st.scheme))
 	accTrie, err := trie.New(trie.StateTrieID(st.root), tdb)
 	if err != nil {
@@ -564,7 +648,12 @@ func c47CheckComplete(db ethdb.KeyValueStore, st *c47State) error {
 	if i != len(st.accElems) {
 		return fmt.Errorf("account trie has %d leaves, target %d", i, len(st.accElems))
 	}
-	// path scheme: the node store is keyed by path, so stray nodes would be picked up by later tries.
+	return nil
+}
+
+// c47CheckPathStore (path scheme): the node store is keyed by path, so the stored nodes must be
+// exactly the nodes of the target tries (no stray nodes).
+func c47CheckPathStore(db ethdb.KeyValueStore, st *c47State) error {
 	if st.scheme == rawdb.PathScheme {
 		var perr error
 		seenA, seenS := 0, 0
@@ -607,32 +696,49 @@ type c47Case struct {
 	Plan   []c47Dev `json:"plan"`
 }
 
-// c47Execute runs one sync under the plan and returns (outcome, applied deviations, error = violation).
-func c47Execute(t *testing.T, st *c47State, plan []c47Dev) (string, []string, map[string]int64, error) {
-	run := &c47Run{st: st, plan: plan, t: t, ctr: map[string]*atomic.Int64{}}
+// c47Opts describes one sync cycle.
+type c47Opts struct {
+	plan        []c47Dev
+	withhold    func(kind string, first common.Hash) bool
+	cancelAfter int
+}
+
+type c47CycleResult struct {
+	err         error // result of Sync
+	hook        error // foreign data written during the cycle
+	stalled     bool  // cancelled by the watchdog
+	stallCancel bool  // cancelled because only withheld requests were left
+	deliveries  int
+	applied     []string
+	counts      map[string]int64
+}
+
+// c47Cycle runs one Sync call of a fresh syncer over the key-value store kv against a peer serving st.
+func c47Cycle(t *testing.T, kv ethdb.KeyValueStore, st *c47State, o c47Opts) c47CycleResult {
+	run := &c47Run{st: st, plan: o.plan, t: t, ctr: map[string]*atomic.Int64{}, withhold: o.withhold, cancelAfter: o.cancelAfter}
 	for k := range c47Behaviours {
 		run.ctr[k] = new(atomic.Int64)
 	}
-	db := rawdb.NewMemoryDatabase()
-	run.db = &c47DB{KeyValueStore: db, st: st}
+	run.db = &c47DB{KeyValueStore: kv, st: st}
 	run.syncer = newSyncer(run.db, st.scheme)
 	run.syncer.rates.OverrideTTLLimit = 30 * time.Millisecond // request timeout (the package's test knob); only drives retries
+	cancel := make(chan struct{})
+	var once sync.Once
+	run.term = func() { once.Do(func() { close(cancel) }) }
 	run.syncer.Register(run.newPeer("A", true))
 
-	cancel := make(chan struct{})
 	result := make(chan error, 1)
 	go func() { result <- run.syncer.Sync(st.root, cancel) }()
-	var err error
-	stalled := false
+	var res c47CycleResult
 	select {
-	case err = <-result:
+	case res.err = <-result:
 	case <-time.After(60 * time.Second): // watchdog: stops the run, never decides a verdict
-		stalled = true
-		close(cancel)
-		err = <-result
+		res.stalled = true
+		run.term()
+		res.err = <-result
 	}
 	// quiescence: every handler goroutine spawned by the test peers has finished
-	for spin := 0; ; spin++ {
+	for {
 		var started int64
 		run.mu.Lock()
 		for _, p := range run.peers {
@@ -645,23 +751,35 @@ func c47Execute(t *testing.T, st *c47State, plan []c47Dev) (string, []string, ma
 		time.Sleep(200 * time.Microsecond)
 	}
 	run.mu.Lock()
-	applied := append([]string{}, run.applied...)
-	counts := map[string]int64{}
+	res.applied = append([]string{}, run.applied...)
+	res.counts = map[string]int64{}
 	for k, c := range run.ctr {
-		counts[k] = c.Load()
+		res.counts[k] = c.Load()
 	}
+	res.deliveries, res.stallCancel = run.deliveries, run.stallCancel
 	run.mu.Unlock()
 	if bad := run.db.bad.Load(); bad != nil {
-		return "", applied, counts, fmt.Errorf("foreign data was written to the database during the sync: %s", *bad)
+		res.hook = fmt.Errorf("foreign data was written to the database during the sync: %s", *bad)
 	}
-	if stalled {
+	return res
+}
+
+// c47Execute runs one single-cycle sync under the plan and returns (outcome, applied deviations, error = violation).
+func c47Execute(t *testing.T, st *c47State, plan []c47Dev) (string, []string, map[string]int64, error) {
+	db := rawdb.NewMemoryDatabase()
+	res := c47Cycle(t, db, st, c47Opts{plan: plan})
+	applied, counts := res.applied, res.counts
+	if res.hook != nil {
+		return "", applied, counts, res.hook
+	}
+	if res.stalled {
 		return "stalled", applied, counts, c47CheckGenuine(db, st)
 	}
-	if err != nil {
+	if res.err != nil {
 		if verr := c47CheckGenuine(db, st); verr != nil {
-			return "", applied, counts, fmt.Errorf("Sync returned %v and the database holds foreign data: %v", err, verr)
+			return "", applied, counts, fmt.Errorf("Sync returned %v and the database holds foreign data: %v", res.err, verr)
 		}
-		return "sync-error:" + err.Error(), applied, counts, nil
+		return "sync-error:" + res.err.Error(), applied, counts, nil
 	}
 	return "completed", applied, counts, c47CheckComplete(db, st)
 }
